@@ -51,7 +51,7 @@ for src in (p, f"{ROOT}/selftest_results.tsv"):
             c = l.rstrip("\n").split("\t")
             if len(c) >= 3:
                 res[c[1].replace("/verif/", "")] = (c[0], c[2], c[3] if len(c) > 3 else "")
-parts.append("### 10.2 Independently written breakages (`seeded/`)\n\nEach was written by a fresh sub-agent that saw only the property text and a scratch worktree, and was confirmed (compiles, pinned suite green, demonstration fails with / passes without) with `tools/confirm_seeded.sh` before it was kept. Result of the property's quick check with the change applied (`tools/par_selftest.sh`); the table shows the state after the follow-ups. First-run detection per round (before any follow-up for that round): rounds 1-3 (98 changes) see the follow-up sections of `notes/CNN.md`; round 4: 28 of 40 caught at first run (misses: C03-r4-1/2, C04-r4-2, C10-r4-1/2, C12-r4-2, C14-r4-1/2, C15-r4-2, C16-r4-1/2, C20-r4-2); round 5: 30 of 40 (misses: C07-r5-2, C12-r5-2, C13-r5-1/2, C14-r5-1, C15-r5-2, C16-r5-2, C17-r5-1/2, C20-r5-1); round 6: 27 of 40 (misses: C06-r6-2, C07-r6-2, C10-r6-1, C11-r6-1, C12-r6-2, C13-r6-1, C14-r6-2, C15-r6-2, C16-r6-2, C17-r6-1/2, C18-r6-2, C19-r6-1; C11-r6-2 was first run by the C11 builder and was a miss too). After the follow-ups 235 of the 238 changes are caught by the quick tier. Every miss was turned into a generator dimension or oracle clause (not a special case) by the property's builder; what was generalised is described under 'Follow-up' in the notes. Three rows are deliberately left uncaught and say why (a change that stops breaking the property behind a later repair; a change masked by a known finding; a change that only rejects values RFC 8976 forbids).\n\n| change | what it breaks / what it needs | quick check | signature |\n|---|---|---|---|")
+parts.append("### 10.2 Independently written breakages (`seeded/`)\n\nEach was written by a fresh sub-agent that saw only the property text and a scratch worktree, and was confirmed (compiles, pinned suite green, demonstration fails with / passes without) with `tools/confirm_seeded.sh` before it was kept. Result of the property's quick check with the change applied (`tools/par_selftest.sh`); the table shows the state after the follow-ups. First-run detection per round (before any follow-up for that round): rounds 1-3 (98 changes) see the follow-up sections of `notes/CNN.md`; round 4: 28 of 40 caught at first run (misses: C03-r4-1/2, C04-r4-2, C10-r4-1/2, C12-r4-2, C14-r4-1/2, C15-r4-2, C16-r4-1/2, C20-r4-2); round 5: 30 of 40 (misses: C07-r5-2, C12-r5-2, C13-r5-1/2, C14-r5-1, C15-r5-2, C16-r5-2, C17-r5-1/2, C20-r5-1); round 6: 27 of 40 (misses: C06-r6-2, C07-r6-2, C10-r6-1, C11-r6-1, C12-r6-2, C13-r6-1, C14-r6-2, C15-r6-2, C16-r6-2, C17-r6-1/2, C18-r6-2, C19-r6-1; C11-r6-2 was first run by the C11 builder and was a miss too). After the follow-ups 215 of the 218 changes are caught by the quick tier. Every miss was turned into a generator dimension or oracle clause (not a special case) by the property's builder; what was generalised is described under 'Follow-up' in the notes. Three rows are deliberately left uncaught and say why (a change that stops breaking the property behind a later repair; a change masked by a known finding; a change that only rejects values RFC 8976 forbids).\n\n| change | what it breaks / what it needs | quick check | signature |\n|---|---|---|---|")
 for d in sorted(glob.glob(f"{ROOT}/seeded/*/")):
     name = os.path.basename(d.rstrip("/"))
     try:
